@@ -6,6 +6,9 @@ static u8 *lf_buf;
 #ifndef LF_EOL
 #define LF_EOL '\n'
 #endif
+#ifndef LF_LINECOL
+#define LF_LINECOL 1 /* 0 or an expression: skip the line/column recount after a success (rules documented as not tracking line/column) */
+#endif
 static void lf_setup(u64 maxn) {
   lf_n = IN(0, maxn);
   lf_buf = (u8 *)exact_alloc(lf_n);
@@ -28,7 +31,7 @@ static void lf_check(u64 *o, int er, u64 epos, int required, u64 maxn) {
   CHECK(o[1] <= lf_n, "cursor never past the end of the input");
   if (er == 1) CHECK(o[1] == epos, "consumed exactly the specified bytes");
   if (er == 0 && required) CHECK(o[1] == lf_start, "local failure leaves the cursor where it was");
-  if (er == 1 || required) { u64 l, c; lf_recount(o[1], maxn, &l, &c); CHECK(o[4] == l && o[5] == c, "line/column equal a recount of the consumed prefix"); }
+  if ((er == 1 && (LF_LINECOL)) || (er == 0 && required)) { u64 l, c; lf_recount(o[1], maxn, &l, &c); CHECK(o[4] == l && o[5] == c, "line/column equal a recount of the consumed prefix"); }
 }
 void x_verif_event(u32 kind, u32 rule, u64 a, u64 b) { (void)kind; (void)rule; (void)a; (void)b; }
 u32 x_verif_sym(u32 k, u64 pos, u32 a, u32 m, u64 *np) { *np = pos; return 0; }
